@@ -144,6 +144,7 @@ pub mod thread {
     pub static mut EARLY: usize = 0;                   // threads whose body ran at spawn time
     pub static mut FAULTED: usize = 0;
     pub static mut FAULT_SEEN: usize = 0;              // joins that returned Err
+    pub static mut FAULT_MASK: u32 = 0;                // bit id: thread id was spawned faulted ("it panicked right away")
     pub static mut PARENT: [usize; MAXT] = [0; MAXT];  // id of the thread that spawned id
     pub static mut LIVE_AT_JOIN: [usize; MAXT] = [0; MAXT]; // LIVE when join(id) was called (incl. id)
     pub static mut SPAWNED_AT_JOIN: [usize; MAXT] = [0; MAXT];
@@ -154,7 +155,7 @@ pub mod thread {
     /// 0 = every thread's placement is a symbolic bit (default); 1 = all early; 2 = all late
     pub static mut SCHED: u8 = 0;
     fn op(c: u8) { unsafe { assert!(NOPS < 2 * MAXT, "thread model: op log full"); OPS[NOPS] = c; NOPS += 1; } }
-    pub fn reset() { unsafe { CUR = None; CUR_ID = 0; SPAWNED = 0; JOINED = 0; LIVE = 0; MAX_LIVE = 0; LATE = 0; EARLY = 0; FAULTED = 0; FAULT_SEEN = 0; NOPS = 0; FAULTS = false; SCHED = 0; } }
+    pub fn reset() { unsafe { CUR = None; CUR_ID = 0; SPAWNED = 0; JOINED = 0; LIVE = 0; MAX_LIVE = 0; LATE = 0; EARLY = 0; FAULTED = 0; FAULT_SEEN = 0; FAULT_MASK = 0; NOPS = 0; FAULTS = false; SCHED = 0; } }
     pub fn set_current_name(n: Option<MStr>) { unsafe { CUR = n; } }
 
     #[derive(Clone, Copy, PartialEq, Eq, Debug)]
@@ -193,7 +194,7 @@ pub mod thread {
             };
             op(id as u8);
             let fault = unsafe { FAULTS } && crate::nd::bool();
-            if fault { unsafe { FAULTED += 1; } drop(f); return Ok(JoinHandle { f: None, r: None, id, name: self.name, fault: true }); }
+            if fault { unsafe { FAULTED += 1; FAULT_MASK |= 1u32 << id; } drop(f); return Ok(JoinHandle { f: None, r: None, id, name: self.name, fault: true }); }
             let eager = match unsafe { SCHED } { 1 => true, 2 => false, _ => crate::nd::bool() };
             if eager { unsafe { EARLY += 1; } let r = run(id, self.name, f); Ok(JoinHandle { f: None, r: Some(r), id, name: self.name, fault: false }) }
             else { Ok(JoinHandle { f: Some(f), r: None, id, name: self.name, fault: false }) }
